@@ -73,6 +73,9 @@ def make_plan(tape, prop):
     # a header without any declaration (licence / placeholder file) that several files include
     plan["empty_header"] = tape.draw(1 << 8) if tape.chance(1, 4) else 0
     plan["dirs"]["99"] = tape.draw(len(DIRS))
+    # an included file whose basename equals the name of a definition made elsewhere (include nodes and definitions share
+    # the sorter's name space)
+    plan["name_clash"] = tape.draw(1 << 8) if tape.chance(1, 6) else 0
     return plan
 
 
@@ -117,6 +120,15 @@ class Arrangement(object):
                 g = owner.get(r)
                 if g is not None and g != f and g not in self.includes[f]:
                     self.includes[f].append(g)
+        if plan.get("name_clash"):
+            included = sorted(set(g for f in self.files for g in self.includes.get(f, [])))
+            if included:
+                g = included[plan["name_clash"] % len(included)]
+                others = [d["name"] for d, a in zip(self.defs, plan["assign"]) if a != g and d["k"] in ("struct", "union", "enum")]
+                if others:
+                    nm = others[(plan["name_clash"] // 7) % len(others)]
+                    self.path_of[g] = "%s/%s%s" % (self.dir_of[g], nm, self.ext)
+                    self.clash = nm
         self.header = None
         if plan.get("empty_header"):
             users = [f for i, f in enumerate(self.files) if (plan["empty_header"] >> i) & 1]
@@ -131,6 +143,7 @@ class Arrangement(object):
         self.decoys = {}
         self.via_inc_subdir = 0
         self.spell = {}
+        self.clash = getattr(self, "clash", None)
         sp = plan["spelling"]
         for f in self.files:
             for k, g in enumerate(self.includes[f]):
@@ -280,7 +293,9 @@ class FsRun(object):
                                                     "<dom xmlns:xi=\"http://www.w3.org/2001/XInclude\"><xi:include href=\"%s\"/>" % back, 1))
             else:
                 fs.put(arr.path_of[g], '#include "%s"\n' % back + text)
-            victim = (arr.path_of[f], arr.path_of[g])
+            # the back edge may close several cycles (g can be included by other files that f needs): the diagnostic may
+            # name any file of the arrangement
+            victim = tuple([arr.path_of[f], arr.path_of[g]] + [arr.path_of[x] for x in arr.files])
         argv = arr.argv()
         if fault == "missing":
             shown = _relpath(victim, arr.cwd) if not plan["abs_inputs"] else victim
@@ -304,6 +319,8 @@ class FsRun(object):
             self.probe("empty_header_included_twice")
         if arr.via_inc_subdir:
             self.probe("include_with_subdirectory_found_through_-I")
+        if arr.clash:
+            self.probe("include_named_like_a_definition")
         indeg = {}
         for f, g in edges:
             indeg[g] = indeg.get(g, 0) + 1
@@ -369,7 +386,7 @@ class FsRun(object):
         # outputs
         sources = {}
         for f in arr.files:
-            base = "p%d" % f
+            base = posixpath.splitext(posixpath.basename(arr.path_of[f]))[0]
             src = fs.get("/w/out/%s.py" % base)
             if not src:
                 return self.v("C16", "output-missing", "C16/output-missing", "no output for %s" % arr.path_of[f])
